@@ -2,6 +2,7 @@
 import conv
 import fasta_lib as F
 
+EXTRA_ANCHORS = ['fasta/stream.py']      # files outside the property's anchors whose change escalates the quick budget (T3)
 LEVEL = "proof"
 RULE = ("well-formed FASTA bytes: 1-5 records of 1..300 residues (ACGT, N-runs incl. leading/trailing, lower case, IUPAC, odd symbols), line width 1..70 "
         "incl. exact multiples and single-line records, LF/CRLF, final newline present/absent, descriptions, x buffer sizes {1,2,3,5,7,w-1,w,w+1,len,10^6}; "
